@@ -29,9 +29,16 @@ type GlobalConfig struct {
 	DateFormat  string
 }
 
+// today is the calendar date of the wall clock, as a date of the log is read:
+// midnight UTC of that date (what --today with the same date gives)
+func today() time.Time {
+	now := time.Now()
+	return time.Date(now.Year(), now.Month(), now.Day(), 0, 0, 0, 0, time.UTC)
+}
+
 func NewDefaultGlobalConfig() GlobalConfig {
 	return GlobalConfig{
-		time.Now().Local(),
+		today(),
 		DefaultDbFilename,
 		DefaultLogFilename,
 		parser.DefaultDateFormat,
